@@ -23,7 +23,7 @@ import itertools
 import numpy as np
 
 PROP = 'C04'
-TARGETS = ['T3', 'T5', 'T6', 'T7b', 'T7e', 'T4o', 'T5w', 'T5g', 'T4c']
+TARGETS = ['T3', 'T5', 'T6', 'T7b', 'T7e', 'T4o', 'T5w', 'T5g', 'T4c', 'T4t']
 LEAN_MODULES = ['HdVerif.Props.C04']
 MODEL_MODULES = ['HdVerif.Model.TilingJson']
 NAMESPACE = 'HdVerif.C04'
@@ -663,7 +663,28 @@ def _refused_call(r, kind, typ, segs, R, C):
     raise KeyError(kind)
 
 
-def _seg_history(ctx, cfg, reader, E, segs, R, C, base_hist):
+def _chan_data(segment_numbers, combine, relabel):
+    """rows of the temporary channel table a segment-aware read creates: (output channel index or label, segment number)"""
+    sn = [int(x) for x in segment_numbers]
+    if combine:
+        keys = list(range(1, len(sn) + 1)) if relabel else sn
+    else:
+        keys = list(range(len(sn)))
+    return [[k, s_] for k, s_ in zip(keys, sn)]
+
+
+def _temp_table_rows(reader):
+    """the temporary channel table in the image's SQLite connection right now: None (absent) or its rows (private state, L2)"""
+    try:
+        con = reader._db_con
+        if next(con.execute("SELECT COUNT(*) FROM sqlite_master WHERE type = 'table' AND name = 'TemporaryChannelTable0'"))[0] == 0:
+            return None
+        return [[int(a), int(b)] for a, b in con.execute('SELECT * FROM TemporaryChannelTable0')]
+    except Exception as e:  # noqa: BLE001
+        return 'unreadable: ' + type(e).__name__
+
+
+def _seg_history(ctx, cfg, reader, E, segs, R, C, base_hist, reqs=None, pending=None, full=False):
     """A HISTORY of operations on ONE tiled segmentation object: `pixel_array` accessed at a random step (after which the decoded
     frames are cached and later reads work on views of that cache), region reads with different options -- stacked / combined
     (with and without relabel), raw / rescaled fractions, other dtypes -- for all segments or a SUBSET of them in any order, in
@@ -683,6 +704,8 @@ def _seg_history(ctx, cfg, reader, E, segs, R, C, base_hist):
         refusals += ['combine-no-rescale', 'combine-no-rescale', 'rescaled-int-dtype', 'rescaled-int-dtype']
     if len(segs) == 1:
         refusals = [k for k in refusals if k != 'combine-bool']     # bool represents label 1
+    use_model = reqs is not None and typ != 'LABELMAP'      # a label map is read without a channel table
+    msteps, mimpl, mcases = [], [], []
     steps = ['pixel_array'] + [r.choice(['stacked', 'stacked', 'combined', 'combined', 'combined-relabel', 'rescaled', 'dtype', 'subset',
                                          'refused', 'refused', 'refused'])
                                for _ in range(ctx.n(7, 10))]
@@ -707,6 +730,13 @@ def _seg_history(ctx, cfg, reader, E, segs, R, C, base_hist):
                          {'what': 'request outside the matrix was not refused'}, site='Segmentation.get_total_pixel_matrix')
             if st == 'err':
                 after_refusal = kind
+            if use_model:
+                sn = kw.get('segment_numbers', segs)
+                msteps.append({'data': _chan_data(sn, kw.get('combine_segments', False), kw.get('relabel', False)),
+                               'nch': len(sn), 'request': [[kw.get('row_start'), None, None, None, False]],
+                               'refuses': kind != 'region-out-of-range'})
+                mimpl.append({'state': _temp_table_rows(reader), 'result': None, 'outcome': 'ok' if st == 'ok' else val.split(':')[0]})
+                mcases.append({'seg': cfg, 'history_step': step_no, 'steps': steps[:step_no + 1], 'refused_call': kind})
             continue
         req = random_requests(r, R, C, cfg['th'], cfg['tw'], 1)[0] if r.random() < 0.7 else (None, None, None, None, False)
         if not modelable(req):
@@ -736,6 +766,25 @@ def _seg_history(ctx, cfg, reader, E, segs, R, C, base_hist):
         st, val = _fetch(reader.get_total_pixel_matrix, row_start=rs, row_end=re, column_start=cs, column_end=ce, **kw)
         case = {'seg': cfg, 'history_step': step_no, 'steps': steps[:step_no + 1], 'request': list(req), 'segments': sub,
                 'after_refused_call': after_refusal}
+        if use_model:
+            combine = step in ('combined', 'combined-relabel')
+            data = _chan_data(sub, combine, step == 'combined-relabel')
+            refuses = False
+            if orc[0] == 'ok':
+                reg = [E[s_][orc[1]:orc[2], orc[3]:orc[4]] for s_ in sub]
+                if combine:
+                    # refused by design inside the `with` block: overlapping requested segments / non-binary fractions in the region
+                    refuses = bool(reg[0].size and ((np.sum([g > 0 for g in reg], axis=0).max() > 1) or
+                                                    (typ == 'FRACTIONAL' and any(((g != 0) & (g != mfv)).any() for g in reg))))
+                elif step == 'rescaled' and typ == 'FRACTIONAL' and reg[0].size == 0:
+                    refuses = True          # `out_array.max()` of an empty array raises inside the block
+            msteps.append({'data': data, 'nch': (max(k for k, _ in data) + 1) if combine else len(sub), 'request': [list(req)],
+                           'refuses': refuses})
+            raw = st == 'ok' and step in ('stacked', 'subset', 'dtype')
+            mimpl.append({'state': _temp_table_rows(reader), 'outcome': 'ok' if st == 'ok' else val.split(':')[0],
+                          'result': [np.asarray(val)[..., k].astype(np.int64).tolist() for k in range(len(sub))] if raw else None,
+                          'shape': list(np.asarray(val).shape[:2]) if raw else None})
+            mcases.append(case)
         ctx.case(request_class='history:' + step, outcome='ok' if st == 'ok' else val.split(':')[0],
                  history_subset=('all' if len(sub) == len(segs) else 'subset') + ('-sorted' if sub == sorted(sub) else '-permuted'),
                  history_after=('refused:' + after_refusal) if after_refusal else 'read', **base_hist)
@@ -783,6 +832,11 @@ def _seg_history(ctx, cfg, reader, E, segs, R, C, base_hist):
                 ctx.fail(case, {'what': 'a region read modified the cached pixel_array of the segmentation'},
                          site='Segmentation.get_total_pixel_matrix')
                 cache = np.array(pa, copy=True) if st2 == 'ok' else None
+    if use_model and msteps:
+        mats = [E[s_].tolist() for s_ in segs]
+        reqs.append(('segHistory', {'matrices': mats, 'segments': list(segs), 'rows': R, 'cols': C, 'th': cfg['th'], 'tw': cfg['tw'],
+                                    'full': bool(full), 'omit_empty': bool(cfg['omit_empty']), 'steps': msteps}))
+        pending.append(('history', mcases, mimpl, 'L0', 'history of segment-aware reads'))
 
 
 def _check_seg(ctx, cfg, reqs, pending):
@@ -960,7 +1014,7 @@ def _check_seg(ctx, cfg, reqs, pending):
             ctx.fail({'seg': cfg, 'request': list(first_ok[0]), 'segments': first_ok[1], 'repeat_after': len(cases)},
                      {'what': 'the same read repeated on the same object after other reads gives another result'},
                      site='Segmentation.get_total_pixel_matrix')
-    _seg_history(ctx, cfg, reader, E, segs, R, C, base_hist)
+    _seg_history(ctx, cfg, reader, E, segs, R, C, base_hist, reqs, pending, full)
     if snap is not None and (bytes(reader.PixelData), int(reader.NumberOfFrames)) != snap:
         ctx.fail({'seg': cfg}, {'what': 'reading regions modified the segmentation'}, site='Segmentation.get_total_pixel_matrix')
     if not np.array_equal(handed, arr):
@@ -1109,6 +1163,23 @@ def _settle(ctx, reqs, pending):
                         else:
                             a_s = a
                         _cmp_model(ctx, layer, c, im, a_s, 'Segmentation.get_total_pixel_matrix (label map)')
+        elif kind == 'history':
+            if 'ok' not in ans:
+                ctx.disagree(layer, {'cases': case[:1]}, None, ans, 'segHistory: model refused the segmentation')
+                continue
+            for c, im, res, stt in zip(case, impl, ans['ok']['results'], ans['ok']['states']):
+                # L2 (private state): the temporary channel table left in the connection after the step
+                if im['state'] != stt:
+                    ctx.disagree('L2', c, im['state'], stt, 'temporary channel table after a step of a history of reads')
+                # L0: accepted vs refused, and the stacked result channel by channel
+                if (im['outcome'] == 'ok') != ('ok' in res):
+                    ctx.disagree(layer, c, im['outcome'], res if 'err' in res else 'ok', 'history of reads: ok-vs-error')
+                elif im['result'] is not None and 'ok' in res:
+                    mod = [ch['ok']['data'] if 'ok' in ch else ch for ch in res['ok']]
+                    shapes = [ch['ok']['shape'] for ch in res['ok'] if 'ok' in ch]
+                    if mod != im['result'] or any(sh != im['shape'] for sh in shapes):
+                        ctx.disagree(layer, c, im['result'] if len(str(im['result'])) < 1500 else '...',
+                                     mod if len(str(mod)) < 1500 else '...', 'history of reads: stacked result')
         elif kind == 'refusal':
             a = ans['ok'][0][0] if 'ok' in ans else ans
             if 'err' not in a:
